@@ -11,7 +11,8 @@
 EXTENDS SgzFormat
 
 CONSTANT WBug     \* "none" | spec-level mutants: "switch_b0" (layout switch on blockshape[0] alone),
-                  \*          "hash_pad_2d" (2-D hash includes the replicated padding traces)
+                  \*          "hash_pad_2d" (2-D hash includes the replicated padding traces),
+                  \*          "hash_whole_aligned" (3-D: the whole plane-set buffer is hashed when it has no x/z padding)
 
 \* conversion_utils.py:292/381 (3-D) and 326 (2-D): a whole plane set is one item iff the code's switch says so
 WholeSet(F) == IF F.dim = 2 THEN F.b[2] = 4
@@ -48,7 +49,10 @@ DataIsIdealLayout(F) ==
 \* 2-D: rows of every group buffer (row i of a group holds trace g*bx+i, or the last trace when beyond the end).
 HashStream(F) ==
     IF F.dim = 3
-    THEN [i \in 1..F.n[1] |-> i - 1]
+    THEN Flatten([ps \in 1..NBa(F, 1) |->          \* numpy_producer / seismic_file_producer: the real planes of every plane set
+            LET toRead == IF ps * F.b[1] > F.n[1] THEN F.n[1] % F.b[1] ELSE F.b[1]
+                rows   == IF WBug = "hash_whole_aligned" /\ Pa(F, 2) = F.n[2] /\ Pa(F, 3) = F.n[3] THEN F.b[1] ELSE toRead
+            IN  [i \in 1..rows |-> IF i <= toRead THEN (ps - 1) * F.b[1] + i - 1 ELSE F.n[1] - 1]])
     ELSE Flatten([g \in 1..NBa(F, 2) |->
             LET toRead == IF g * F.b[2] > F.n[2] THEN F.n[2] % F.b[2] ELSE F.b[2]
                 rows   == IF WBug = "hash_pad_2d" THEN Min(F.b[2], F.n[2]) ELSE toRead
